@@ -6,10 +6,14 @@ def run(tier, seed):
         mc_cfgs=(["ChanMC_c10.cfg"], ["ChanMC_c10.cfg", "ChanMC_c10t.cfg"]),
         profiles=[("crash", 2, 200), ("crashcross", 2, 300), ("crash", 3, 80)],
         thorough_profiles=[("crash", 2, 5000), ("crashcross", 2, 6000), ("crash", 3, 2000)],
+        families=[("inflight", 250)], thorough_families=[("inflight", 6000), ("failwin", 2000)],
         mc_actions=("MAdd", "MSendCS", "MSendRAA", "MDeliver", "MSave", "MCrash"),
         assumptions=cc.COMMON_ASSUMPTIONS + [
-            "the ChannelManager snapshot a node restarts from was written while none of its monitor updates was in "
-            "flight (nothing was being held back); monitors are durable up to every completed write, later in-flight "
+            "the ChannelManager snapshot a node restarts from was written either while none of its monitor updates was "
+            "in flight, or while some were and the node has released no message since (the held messages are still "
+            "held: the restarted node replays the in-flight updates or finds them landed); a snapshot taken while "
+            "messages were held that were released before the crash is not used (the observer would have to "
+            "fast-forward the restored state). Monitors are durable up to every completed write, later in-flight "
             "writes landed or not as the script chooses",
             "on-chain resolution after an OutdatedChannelManager force-close is judged by the on-chain checks; here: "
             "read succeeds, stale channels are closed and never resumed, the broadcast commitment is not revoked, "
